@@ -125,7 +125,7 @@ impl Property for C05 {
     }
     fn cases(&self, tier: Tier) -> usize {
         match tier {
-            Tier::Quick => 400,
+            Tier::Quick => 1000,
             Tier::Thorough => 4000,
         }
     }
